@@ -105,4 +105,18 @@ func init() {
 		{"varint-decoder-length-cap", "dawg/dawg.go", "\tif n > 8 {\n", "\tif n > 7 {\n", "VARINT:dawg.varint:max length"},
 		{"varint-little-endian-encoder", "dawg/dawg.go", "byte(x >> uint(8*(7-(i+zeroBytes))))", "byte(x >> uint(8*(6-(i+zeroBytes))))", "VARINT:dawg.varint:byte order"},
 	}
+	mutants["C08"] = []mutant{
+		{"graph6-long-header-guard-dropped", "graph/encoding.go", "\t} else if len(s) < 4 {\n\t\treturn &DenseGraph{}, errors.New(\"String too short - unable to decode n\")\n\t} else if s[1] != 126 {\n\t\tn = (uint64(s[1]-63) << 12) + (uint64(s[2]-63) << 6) + uint64(s[3]-63)\n\t\ti = 4\n\t} else {\n\t\tif len(s) < 8 {\n\t\t\treturn &DenseGraph{}", "\t} else if len(s) < 3 {\n\t\treturn &DenseGraph{}, errors.New(\"String too short - unable to decode n\")\n\t} else if s[1] != 126 {\n\t\tn = (uint64(s[1]-63) << 12) + (uint64(s[2]-63) << 6) + uint64(s[3]-63)\n\t\ti = 4\n\t} else {\n\t\tif len(s) < 8 {\n\t\t\treturn &DenseGraph{}", "BOUNDS:graph.Graph6Decode:s[3]"},
+		{"graph6-edge-bytes-off-by-one", "graph/encoding.go", "\tif i+int(((n*(n-1))/2)+5)/6 > len(s) {", "\tif i+int(((n*(n-1))/2)+5)/6 > len(s)+1 {", "BOUNDS:graph.Graph6Decode:s[i + j / 6]"},
+		{"graph6-edge-array-wrong-size", "graph/encoding.go", "\tedges := make([]uint8, (n*(n-1))/2)\n", "\tedges := make([]uint8, (n*(n+1))/2)\n", "PRECOND:graph.Graph6Decode:NewDense"},
+		{"graph6-eight-byte-header-reads-s8", "graph/encoding.go", "uint64(s[7]-63)\n\t\ti = 8\n\t\tMaxN", "uint64(s[8]-63)\n\t\ti = 8\n\t\tMaxN", "BOUNDS:graph.Graph6Decode:s[8]"},
+		{"sparse6-empty-check-dropped", "graph/encoding.go", "\tif len(s) == 0 {\n\t\treturn &SparseGraph{}, errors.New(\"String too short - no initial character\")\n\t}\n", "", "BOUNDS:graph.Sparse6Decode:s[0]"},
+		{"sparse6-header-check-dropped", "graph/encoding.go", "\tif len(s) == 0 {\n\t\treturn &SparseGraph{}, errors.New(\"String too short - unable to decode n\")\n\t}\n", "", "BOUNDS:graph.Sparse6Decode:s[0]"},
+		{"sparse6-reads-one-pair-too-many", "graph/encoding.go", "\tfor pos+k < numBits {", "\tfor pos+k <= numBits {", "BOUNDS:graph.Sparse6Decode"},
+		{"sparse6-vertex-bound-inclusive", "graph/encoding.go", "\t\t} else if v < int(n) {", "\t\t} else if v <= int(n) {", "PRECOND:graph.Sparse6Decode:g.AddEdge(v, x) argument 1"},
+		{"sparse6-edge-added-unconditionally", "graph/encoding.go", "\t\tif x > v {\n\t\t\tv = x\n\t\t} else if v < int(n) {\n\t\t\tg.AddEdge(v, x)\n\t\t} else {", "\t\tif x > v {\n\t\t\tv = x\n\t\t} else if v != int(n) {\n\t\t\tg.AddEdge(v, x)\n\t\t} else {", "PRECOND:graph.Sparse6Decode:g.AddEdge(v, x) argument 1"},
+		{"sparse6-cursor-does-not-advance-for-k0", "graph/encoding.go", "\t\tpos += k + 1\n", "\t\tpos += k\n", "TERM:graph.Sparse6Decode"},
+		{"sparse6-bit-index-from-wrong-base", "graph/encoding.go", "\t\t\tx = 2*x + int(((s[i+p/6]-63)>>uint(5-p%6))&1)", "\t\t\tx = 2*x + int(((s[i+1+p/6]-63)>>uint(5-p%6))&1)", "BOUNDS:graph.Sparse6Decode"},
+		{"sparse6-numbits-counts-header", "graph/encoding.go", "\tnumBits := 6 * (len(s) - i)\n", "\tnumBits := 6 * len(s)\n", "BOUNDS:graph.Sparse6Decode"},
+	}
 }
